@@ -20,7 +20,7 @@ func init() {
 	register(&Property{
 		Meta: report.Meta{
 			Property:    "C07",
-			Explanation: "Structural necessary conditions of a lossless seal/unseal: (R1) field bijection — from toIPLD the relation 'model field is fed from token field' and from tokenFromModel the relation 'token field is fed from model field' are extracted from the stores on every success path; they must be mutually inverse bijections over ALL fields of the Token struct and of the payload model, the model's fields must be the schema's fields, and optional/nullable schema fields must have nilable Go types; (R2) codec pairing — functions named *DagCbor* only reference dagcbor codec functions, *DagJson* only dagjson, sealed variants only DAG-CBOR; (R3) key-algorithm tables — multicodecs FromPubKey emits are accepted by Parse and have unmarshallers, key types have varsig headers; (R4) writer/reader bound agreement — every *time.Time field that toIPLD serialises is, in validate(), rejected beyond +/-(2^53-1) seconds exactly as parse.OptionalTimestamp rejects it on decode; (R5) validator symmetry — what the decoder validates (command grammar, policy integers, argument integers) validate() checks on construction too; (R6) the generic decoder dispatches to the typed decoders by their Tag constants. (R8) ordered containers: in packages args and meta, on every path a key is appended to X.Keys exactly when the path knows it to be absent from X.Values and stores a value under it (a key listed twice is sealed as a repeated map key that every decoder rejects). Equality of the round-tripped values themselves is a runtime-value clause and is not decided. validate may look at a *time.Time bound only through nil tests and Unix() (what the wire keeps); the Values map of an Args / Meta is made or cloned, never another container's map. The header written by envelope.ToIPLD is result #0 of a successful varsig.Encode(Type() of the signing key) on every sealing path, and the variable holding it is not written again. (R5) every failing exit of policy.FromIPLD / statementFromIPLD / statementsFromIPLD is selected by a fact that mentions the node being decoded. (R2) the float case of the JSON encoder that dagjson.Encode reaches (refmt json emitFloat, read from the module cache as part of the type-checked program) must contain a fraction marker constant, or a function of the module reachable from the DAG-JSON entry point must test for Kind_Float / call AsFloat. (R5) Args.Add / Meta.Add store a node only on paths with the fact Kind() != Kind_Null; every link built in literal.Any / anyAssemble is built on a path with Defined() true; invocation.validate (and helpers its code moved into) calls Defined on the cause and applies a Defined predicate to the proof list; no function reachable from toIPLD calls time.Now / Since / Until. (R6) static calls from package token into token/delegation and token/invocation are FromIPLD only. (R2) refmt emitString contains the constant \\ufffd and dagjson linkLookahead the constant /: unless module code reachable from the DAG-JSON entry points calls unicode/utf8.Valid* resp. compares with \"/\", the obligations fail (known findings). Every failing exit of envelope.FromIPLD (both instantiations) is selected by a fact whose head is one of: Inspect, the payload Tag, LookupByString, AssignNode, bindnode.Unwrap, AsString, did.Parse, PubKey, varsig.Encode, the header comparison, ipld.Encode, Verify, the final type assertion.",
+			Explanation: "Structural necessary conditions of a lossless seal/unseal: (R1) field bijection — from toIPLD the relation 'model field is fed from token field' and from tokenFromModel the relation 'token field is fed from model field' are extracted from the stores on every success path; they must be mutually inverse bijections over ALL fields of the Token struct and of the payload model, the model's fields must be the schema's fields, and optional/nullable schema fields must have nilable Go types; (R2) codec pairing — functions named *DagCbor* only reference dagcbor codec functions, *DagJson* only dagjson, sealed variants only DAG-CBOR; (R3) key-algorithm tables — multicodecs FromPubKey emits are accepted by Parse and have unmarshallers, key types have varsig headers; (R4) writer/reader bound agreement — every *time.Time field that toIPLD serialises is, in validate(), rejected beyond +/-(2^53-1) seconds exactly as parse.OptionalTimestamp rejects it on decode; (R5) validator symmetry — what the decoder validates (command grammar, policy integers, argument integers) validate() checks on construction too; (R6) the generic decoder dispatches to the typed decoders by their Tag constants. (R8) ordered containers: in packages args and meta, on every path a key is appended to X.Keys exactly when the path knows it to be absent from X.Values and stores a value under it (a key listed twice is sealed as a repeated map key that every decoder rejects). Equality of the round-tripped values themselves is a runtime-value clause and is not decided. validate may look at a *time.Time bound only through nil tests and Unix() (what the wire keeps); the Values map of an Args / Meta is made or cloned, never another container's map. The header written by envelope.ToIPLD is result #0 of a successful varsig.Encode(Type() of the signing key) on every sealing path, and the variable holding it is not written again. (R5) every failing exit of policy.FromIPLD / statementFromIPLD / statementsFromIPLD is selected by a fact that mentions the node being decoded. (R2) the float case of the JSON encoder that dagjson.Encode reaches (refmt json emitFloat, read from the module cache as part of the type-checked program) must contain a fraction marker constant, or a function of the module reachable from the DAG-JSON entry point must test for Kind_Float / call AsFloat. (R5) Args.Add / Meta.Add store a node only on paths with the fact Kind() != Kind_Null; every link built in literal.Any / anyAssemble is built on a path with Defined() true; invocation.validate (and helpers its code moved into) calls Defined on the cause and applies a Defined predicate to the proof list; no function reachable from toIPLD calls time.Now / Since / Until. (R6) static calls from package token into token/delegation and token/invocation are FromIPLD only. (R2) refmt emitString contains the constant \\ufffd and dagjson linkLookahead the constant /: unless module code reachable from the DAG-JSON entry points calls unicode/utf8.Valid* resp. compares with \"/\", the obligations fail (known findings). Every failing exit of envelope.FromIPLD (both instantiations) is selected by a fact whose head is one of: Inspect, the payload Tag, LookupByString, AssignNode, bindnode.Unwrap, AsString, did.Parse, PubKey, varsig.Encode, the header comparison, ipld.Encode, Verify, the final type assertion. (R1) in (*Args).Equals and (*Meta).Equals no == / != has an element of the receiver's Keys on one side and an element of the other's Keys on the other, and no call receives both Keys slices as loaded. (R5) for each of ==, <, <=, >, >=: a failing path of statementFromIPLD under the operator's kind fact that carries a fact on LookupByIndex(node, 2) requires a failing path of the function the operator's constructor returns with a fact on the value parameter.",
 			Assumptions: []string{"go-ipld-prime codecs and bindnode are lossless for the bound types (the float rendering of the JSON codec is not assumed: C07.R2 json-float-fidelity inspects it)", "time.Unix / Time.Unix are inverse at whole-second resolution"},
 			Trusted:     []string{"go-ipld-prime (dagcbor, dagjson, bindnode)", "golang.org/x/tools/go/ssa v0.29.0"},
 			NotDecided:  []string{"equality of round-tripped field values (runtime values)", "non-finite floats in arguments (excluded by the statement)"},
@@ -30,11 +30,11 @@ func init() {
 }
 
 func runC07(x *Ctx) {
-	x.C.Rule("C07.R1", "field bijection token <-> model <-> schema; optional fields serialised exactly when set", 8)
+	x.C.Rule("C07.R1", "field bijection token <-> model <-> schema; optional fields serialised exactly when set; the comparison of arguments and metadata is independent of key order", 10)
 	x.C.Rule("C07.R2", "codec pairing by function name; floats, strings and maps keyed \"/\" survive the DAG-JSON form", 14)
 	x.C.Rule("C07.R3", "key-algorithm tables; the header sealed is the one the verifier expects", 4)
 	x.C.Rule("C07.R4", "constructors bound every serialised timestamp like the decoder; validate reads time bounds at wire resolution", 11)
-	x.C.Rule("C07.R5", "construct-side counterparts of decode-side validators; the policy decoder refuses only for what the document holds; sealing does not read the clock; top-level nulls and undefined CIDs are refused; the envelope decoder refuses for the enumerated reasons only", 16)
+	x.C.Rule("C07.R5", "construct-side counterparts of decode-side validators; the policy decoder refuses only for what the document holds; sealing does not read the clock; top-level nulls and undefined CIDs are refused; the envelope decoder refuses for the enumerated reasons only; a comparison statement is refused for its value only if its constructor refuses too", 21)
 	x.C.Rule("C07.R6", "generic decoder = typed decoders, chosen from the decoded envelope", 2)
 	x.C.Rule("C07.R7", "encoders return the codec's fresh output", 3)
 	x.C.Rule("C07.R8", "ordered containers (Args, Meta): a key is appended to the key list exactly when it is new in the map; ToIPLD assembles every key", 5)
@@ -138,6 +138,8 @@ func runC07(x *Ctx) {
 	noClockOnSealing(x)
 	unreadableValuesRefused(x)
 	envelopeRefusals(x)
+	operandAgreement(x)
+	orderFreeEquals(x)
 	typedDecodersThroughFromIPLD(x)
 	freshEncoderOutput(x)
 
@@ -671,6 +673,7 @@ func jsonFloatFidelity(x *Ctx) {
 //   - the reserved key: dagjson's decoder looks one token ahead for the key "/" (linkLookahead / bytesLookahead test
 //     the constant) and reads {"/": ...} as a link or as bytes, while its encoder writes a map with that single key
 //     as it is: a map {"/": "x"} in an Any-typed field cannot be read back.
+//
 // Each obligation holds for an entry point when the dependency does not behave so, or when the module's code
 // reachable from the entry point looks at strings with unicode/utf8 (resp. compares a key with "/") before encoding.
 func jsonTextFidelity(x *Ctx) {
